@@ -13,7 +13,7 @@ CONSTANTS
   RecheckRef = TRUE
   AtomicFin = FALSE
   RecheckClosed = FALSE
-  CloseExcl = TRUE
+  CloseExcl = FALSE
 SYMMETRY Symm
 VIEW View
 INVARIANTS OneLiveValue ConstructOnce FinalizeOnce CallbackOnce CapacityOK RefSane LruHoldsRef CloseOK
